@@ -190,6 +190,8 @@ fn main() {
         std::process::exit(3);
     }
     let mut rep = Report::new(&prop);
+    // first use of the library in this process: from several threads at once (see mon_threads)
+    harness::mon_threads::threads_smoke(&ctx, &mut rep);
     match prop.as_str() {
         "C01" => harness::runners::run_c01(&ctx, &mut rep),
         "C02" => harness::runners::run_c02(&ctx, &mut rep),
